@@ -95,6 +95,16 @@ where
             });
         }
 
+        // an ignored duplicate (single-edge graph, `KeepFirst`) changes nothing
+        if edge_already_exists
+            && !self.specs.multi_edges
+            && self.specs.edge_dedupe_strategy == EdgeDedupeStrategy::KeepFirst
+        {
+            return Ok(());
+        }
+        // a duplicate on a single-edge graph replaces the stored edge (`KeepLast`)
+        let replace = edge_already_exists && !self.specs.multi_edges;
+
         // if undirected, order the edge as that it can be easily queried for
         let ordered = match self.specs.directed {
             false => edge.clone().ordered().into(),
@@ -125,6 +135,7 @@ where
             ordered_edge_v,
             edge.weight,
             edge_already_exists,
+            replace,
         );
 
         // add to predecessors
@@ -144,6 +155,7 @@ where
                     ordered_edge_u,
                     edge.weight,
                     edge_already_exists,
+                    replace,
                 );
             }
             false => {
@@ -161,6 +173,7 @@ where
                     ordered_edge_u,
                     edge.weight,
                     edge_already_exists,
+                    replace,
                 );
             }
         }
@@ -459,6 +472,9 @@ where
 
 /**
 Adds a node to an adjacency (successor or predecessor) vector.
+
+If the pair already has entries they keep the smaller weight, unless `replace` is set
+(the stored edge is being replaced), in which case they take the new weight.
  */
 fn add_to_adjacency_vec(
     adjacency_vec: &mut Vec<Vec<AdjacentNode>>,
@@ -466,15 +482,16 @@ fn add_to_adjacency_vec(
     v_node_index: usize,
     weight: f64,
     edge_already_exists: bool,
+    replace: bool,
 ) {
     match edge_already_exists {
         true => {
-            let index = adjacency_vec[u_node_index]
-                .iter()
-                .position(|succ| succ.node_index == v_node_index)
-                .unwrap();
-            if weight < adjacency_vec[u_node_index][index].weight {
-                adjacency_vec[u_node_index][index] = AdjacentNode::new(v_node_index, weight);
+            for index in 0..adjacency_vec[u_node_index].len() {
+                if adjacency_vec[u_node_index][index].node_index == v_node_index
+                    && (replace || weight < adjacency_vec[u_node_index][index].weight)
+                {
+                    adjacency_vec[u_node_index][index] = AdjacentNode::new(v_node_index, weight);
+                }
             }
         }
         false => adjacency_vec[u_node_index].push(AdjacentNode::new(v_node_index, weight)),
